@@ -126,7 +126,7 @@ def compare(model, real):
 
 
 # ------------------------------------------------------------------ random driver
-COMMON = {"required": False, "default": {"t": "none"}, "sensitive": False, "fname": "", "env": "inherit", "fval": "none"}
+COMMON = {"required": False, "default": {"t": "none"}, "sensitive": False, "fname": "", "env": {"m": "inherit"}, "fval": "none"}
 STROPTS = {"minlen": -1, "maxlen": -1, "regex": "none", "choices": [], "tcase": "none", "stripm": "none", "stripcs": []}
 ALPHA = list("aAbBzZ09 \t\n.-_/:+!")
 
